@@ -730,7 +730,36 @@ class Terms(object):
         """Canonical (term, polarity) of a condition: the term is never a
         ("not", ...)."""
         t = self.term(expr, node, env)
+        if self.hyps:
+            t = self._bool_simp(t)
         return norm_cond(t, polarity)
+
+    def _bool_simp(self, t):
+        """Truth-value simplification of and / or / not under the
+        hypotheses (only sound where just the truth of ``t`` matters)."""
+        if t[0] == "not":
+            v = self._bool_simp(t[1])
+            if v[0] == "const":
+                return ("const", not v[1])
+            return v[1] if v[0] == "not" else ("not", v)
+        if t[0] in ("and", "or"):
+            kind = t[0]
+            kept = []
+            for x in t[1:]:
+                x = self._bool_simp(x)
+                d = self._decided(x[1] if x[0] == "not" else x)
+                if d is not None and x[0] == "not":
+                    d = not d
+                if d is None:
+                    kept.append(x)
+                elif d != (kind == "and"):
+                    return ("const", d)
+            if not kept:
+                return ("const", kind == "and")
+            if len(kept) == 1:
+                return kept[0]
+            return (kind,) + tuple(kept)
+        return t
 
     def facts(self, node):
         """Canonical dominating facts at ``node``: [(term, polarity)]."""
@@ -742,15 +771,43 @@ class Terms(object):
                 pass
         return out
 
+    def doms(self, node):
+        """Ids of the nodes dominating ``node`` among the executions allowed
+        by the hypotheses (dead branch edges removed)."""
+        if not self.dead:
+            return self.cfg.dominators()[node.id]
+        d = self.__dict__.get("_pruned_dom")
+        if d is None:
+            from .cfg import _dominators
+            live = [n for n in self.cfg.nodes if n.id in self.reached]
+            ids = set(n.id for n in live)
+            d = _dominators(live, self.cfg.entry,
+                            lambda n: [p for p in n.pred if p.id in ids])
+            self._pruned_dom = d
+        return d.get(node.id, set())
+
     def all_facts(self, node):
         """Like facts() but without the validity filter of Flow.facts (terms
-        are values: a fact about a value stays true)."""
+        are values: a fact about a value stays true).  Dominance is taken on
+        the executions the hypotheses allow.  A nested helper called as a
+        statement on the way contributes the facts of its normal exit (e.g.
+        the negations of the tests that make it raise)."""
         out = []
-        dom = self.cfg.dominators()[node.id]
+        dom = self.doms(node)
         valid = None
         for nid in sorted(dom):
             a = self.cfg.nodes[nid]
-            if a.kind != "assume" or a is node:
+            if a is node:
+                continue
+            if a.kind == "stmt" and isinstance(a.ast, ast.Expr) and \
+                    isinstance(a.ast.value, ast.Call) and \
+                    isinstance(a.ast.value.func, ast.Name) and \
+                    a.ast.value.func.id in self._nested:
+                for x in self._post(a.ast.value, a):
+                    if x not in out:
+                        out.append(x)
+                continue
+            if a.kind != "assume":
                 continue
             c = self.cond(a.ast, a, a.polarity)
             if any(st[0] in ("phi", "mu", "rec", "attrv", "opaque", "new")
@@ -766,6 +823,44 @@ class Terms(object):
                 if x not in out:
                     out.append(x)
         return out
+
+    def _post(self, call, node):
+        """Facts that hold when the nested helper called by ``call`` returns
+        normally, in this function's terms (only facts about values: nothing
+        that mentions state the helper or later code can change)."""
+        helper = self._nested.get(call.func.id)
+        key = ("post", id(call))
+        if helper is None or key in self._busy:
+            return []
+        self._busy.add(key)
+        try:
+            a = helper.args
+            names = [x.arg for x in a.posonlyargs + a.args]
+            if a.vararg or a.kwarg or len(call.args) > len(names):
+                return []
+            sub = {}
+            for nm, arg in zip(names, call.args):
+                sub[nm] = self.term(arg, node)
+            for k in call.keywords:
+                if k.arg:
+                    sub[k.arg] = self.term(k.value, node)
+            ht = Terms(helper, helpers=self.helpers, outer=(self, node),
+                       pure=self.pure)
+            if self.hyps:
+                ht = _HypInner(ht, dict(sub), None, self.hyps)
+            facts = ht.all_facts(ht.cfg.exit)
+            out = []
+            for t, p in facts:
+                t = subst_params(expand(t, 3), sub)
+                if any(st[0] in ("phi", "mu", "rec", "attrv", "opaque",
+                                 "new", "callv") for st in subterms(t)):
+                    continue
+                out.append(norm_cond(t, p))
+            return out
+        except AnalysisError:
+            return []
+        finally:
+            self._busy.discard(key)
 
     # -- variables -------------------------------------------------------------
     # -- variables -------------------------------------------------------------
@@ -970,18 +1065,20 @@ class Terms(object):
                 else:
                     parts.append(t)
             if self.hyps:
-                # conjuncts / disjuncts decided by the hypotheses
+                # operands decided by the hypotheses (value context: ``a or
+                # b`` is a when a is true, b when a is false)
                 kept = []
-                for t in parts:
+                for i, t in enumerate(parts):
                     d = self._decided(t[1] if t[0] == "not" else t)
                     if d is not None and t[0] == "not":
                         d = not d
                     if d is None:
                         kept.append(t)
                     elif d != (kind == "and"):
-                        return ("const", d)
-                if not kept:
-                    return ("const", kind == "and")
+                        kept.append(t)
+                        break
+                    elif i == len(parts) - 1:
+                        kept.append(t)
                 parts = kept
                 if len(parts) == 1:
                     return parts[0]
